@@ -8,7 +8,7 @@ NOT_YET = "static check designed (DESIGN.md section 4) but not yet implemented i
 def fill(claim, na):
     claim(
         "C02", "translation_validation",
-        "term extraction + normal-form equality (translation validation of _impedance against the equation string)",
+        "term extraction + normal-form equality (translation validation of _impedance against the equation string; case distinctions in helpers decided per case); interpretation of the to_sympy substitution table",
         "Compares the repository's two implementations of every element's impedance as functions of all parameters and "
         "frequency: the term of Class._impedance (helpers inlined through the resolved call graph) against "
         "sympify(equation); the general transmission line's numeric and symbolic case analyses over all 243 "
@@ -35,7 +35,7 @@ def fill(claim, na):
     )
     claim(
         "C14", "model_checking",
-        "abstract interpretation over a finite order domain: setter bodies compiled from source, all weak orderings enumerated",
+        "abstract interpretation over a finite order domain: setter bodies compiled from source, all weak orderings enumerated; __copy__/__deepcopy__/reset_* interpreted on their AST in every ordering",
         "The per-key bodies of set_values/set_lower_limits/set_upper_limits are compiled from base.py into transfer "
         "functions over symbolic values; every weak ordering of the symbols involved (source value/limits, class defaults, "
         "argument, +-inf) is enumerated, so refusal-leaves-state, l<u, clamping, reset=defaults and copy/deepcopy "
@@ -87,7 +87,7 @@ def fill(claim, na):
     )
     claim(
         "C15", "other",
-        "write-set/restore-set comparison on registry globals, CFG must-pass-through and guard dominance, alphabet table agreement (registry vs tokenizer), import-time snapshot rule",
+        "write-set/restore-set comparison on registry globals, CFG must-pass-through and guard dominance, remove_elements interpreted on a registry of stand-in classes, alphabet table agreement (registry vs tokenizer), import-time snapshot rule",
         "Structural: every registry global mutated by register_element is restored by reset(); class defaults written by "
         "set_default_values are snapshotted at import and restored; the registry store is dominated by the duplicate-symbol "
         "refusal and removal by the default-element refusal (CFG must-pass); _initialized() runs after all element modules; "
@@ -113,12 +113,15 @@ def fill(claim, na):
     )
     claim(
         "C20", "other",
-        "abstract interpretation over the kind of the visited child {Series, Parallel, Element} at every traversal site (handled / rejected / skipped, emit-once); push/pop balance by interpretation with a counting stub; framing; naming rules shared with C16",
+        "bounded-exhaustive interpretation of to_circuitikz and to_drawing (their AST, checker-owned interpreter) on every circuit topology up to a node bound; abstract interpretation over the kind of the visited child {Series, Parallel, Element} at every traversal site; framing; naming rules shared with C16",
         "At the 11 child-traversal sites of the two diagram back ends, to_stack and to_sympy, the dispatch covers all three "
         "kinds, the fall-through raises or handles the rest, each element arm emits exactly once and recursion is on the "
         "visited child; to_latex is latex(to_sympy(False)); CircuiTikZ begin/end framing on every path; push/pop in "
         "draw_parallel counted equal for n=1..8 branches; exporters are installed on Circuit and Connection. Symbol "
-        "clauses are decided by C02 R2.2 and C16.",
+        "clauses are decided by C02 R2.2 and C16. R20.5: both exporters are interpreted statement by statement on stand-in circuits "
+        "of every series/parallel/element tree up to the bound (as circuit and as bare connection, display and running identifiers, "
+        "with and without a label): no raise, one begin/end frame, balanced push/pop, one component per element named "
+        "<symbol>_<label or identifier>. Two genuine defects on degenerate connections are listed as known findings.",
         "Not decided: coordinates, that schemdraw/LaTeX accept the emitted calls, empty connections.",
         "DESIGN.md section 4, C20",
     )
@@ -138,7 +141,7 @@ def fill(claim, na):
     )
     claim(
         "C17", "other",
-        "twin-branch agreement at every Pool fan-out, total-order rule for imap_unordered fan-in, randomness inventory with a triage table, worker tuple packer/unpacker agreement",
+        "twin-branch agreement at every Pool fan-out, total-order rule for imap_unordered fan-in, randomness inventory with a triage table, worker tuple packer/unpacker agreement, inter-procedural shared-object taint from worker tuples",
         "Static hazards that make results depend on scheduling or repetition: the pooled and serial arm of each of the "
         "fan-outs map the same worker over the same arguments and treat results identically (also the unrolled arm in "
         "TR-RBF and the iterator.next() form); num_procs flows only into Pool(), validation, arm selection and forwarding; "
@@ -192,7 +195,7 @@ def fill(claim, na):
     )
     claim(
         "C09", "other",
-        "homogeneity (scaling-degree) analysis of extracted terms by symbolic substitution, unit-derived expected degrees",
+        "homogeneity (scaling-degree) analysis of extracted terms by symbolic substitution, unit-derived expected degrees, def-use provenance of the pseudo chi-squared weight through callers",
         "Decides the mechanism of unit invariance for the linear Kramers-Kronig pipeline: each design-matrix column is "
         "homogeneous under (ω→kω, τ→τ/k) with one degree for all row blocks; the time constants scale as 1/k, depend on ω "
         "only through max/min (order-free) and not on Z; combined with the least-squares equivariance lemma the fitted "
@@ -205,7 +208,7 @@ def fill(claim, na):
     )
     claim(
         "C11", "other",
-        "term extraction of the Z-HIT reconstruction and offset residual to sympy (identity with 2/pi*I + gamma*D, gamma=-pi/6; weight factorisation; translation invariance) plus def-use pairing of worker tuples and phase keys",
+        "interpretation of _reconstruct on a symbolic grid (quad and derivator as uninterpreted functions; identity with 2/pi*I + gamma*D, gamma=-pi/6, both representations) and term extraction of the offset residual (weight factorisation; translation invariance) plus def-use pairing of worker tuples and phase keys",
         "Decides the repository's own part of the Z-HIT mechanism: _reconstruct evaluates 2/pi*integral(phase) + gamma*dphase with "
         "gamma = -pi/6, integrating the phase interpolator from the first ln omega to the current one, identically in the impedance "
         "and admittance branches; the offset residual is weights x g(reconstruction + offset - ln|X|) so zero-weight points cannot "
